@@ -1,7 +1,9 @@
 #!/venv/bin/python
 """False-alarm calibration with an independently produced behaviour-preserving refactoring.
 
-usage: check_benign.py <src_dir with patch.diff meta.json> <name> [--all]
+usage: check_benign.py <src_dir with patch.diff meta.json> <name> [--all] [--no-scipy]
+  --no-scipy  do not re-run the two scipy-dependent test files here (20 min and more on a loaded machine); the author's
+              reported result for them is recorded instead, marked as such
 
 Applies the patch to a scratch copy of /repo (outside /repo and /verif, removed afterwards), confirms that the baseline
 tests (and the two scipy-dependent test files) still pass, runs every quick check whose property can be touched by the
@@ -70,12 +72,20 @@ def main():
             out["tests_ok"] = bool(line) and "245 passed" in line[-1] and "failed" not in line[-1]
             if out["tests_ok"]:
                 break
-        t = sh(["/venv/bin/python", "-m", "pytest", "-q", "-p", "no:cacheprovider", "--timeout=1800", "-n", "8",
-                "tests/test_grads.py", "tests/test_training.py"], cwd=wt,
-               env=dict(os.environ, MPLBACKEND="Agg", PYTHONPATH=f"{wt}:/tmp/extra-deps"))
-        line = [l for l in t.stdout.splitlines() if " passed" in l or " failed" in l]
-        out["scipy_tests"] = line[-1].strip("= ") if line else t.stdout[-200:]
-        out["scipy_tests_ok"] = bool(line) and "failed" not in line[-1] and "error" not in line[-1]
+        if "--no-scipy" in sys.argv:
+            try:
+                rep = str(json.load(open(os.path.join(src, "meta.json"))).get("scipy_tests"))
+            except Exception:  # noqa: BLE001
+                rep = "None"
+            out["scipy_tests"] = "reported by the author, not re-run here: " + rep[:160]
+            out["scipy_tests_ok"] = " passed" in rep and "failed" not in rep
+        else:
+            t = sh(["/venv/bin/python", "-m", "pytest", "-q", "-p", "no:cacheprovider", "--timeout=1800", "-n", "8",
+                    "tests/test_grads.py", "tests/test_training.py"], cwd=wt,
+                   env=dict(os.environ, MPLBACKEND="Agg", PYTHONPATH=f"{wt}:/tmp/extra-deps"))
+            line = [l for l in t.stdout.splitlines() if " passed" in l or " failed" in l]
+            out["scipy_tests"] = line[-1].strip("= ") if line else t.stdout[-200:]
+            out["scipy_tests_ok"] = bool(line) and "failed" not in line[-1] and "error" not in line[-1]
         checks = {}
         for p in props:
             env = dict(os.environ, QUCUMBER_REPO=wt, VERIF_EVIDENCE_DIR=os.path.join(wt, "_ev"), VERIF_REPLAY_DIR=os.path.join(wt, "_rp"))
